@@ -88,6 +88,16 @@ def sim_stage(work, res, prop, tier, prefixes, count, replay=None, model=True, m
                             for pl in fh:
                                 if json.loads(pl)["id"] == case:
                                     open(res.violations[-1][2] + ".plan", "w").write(pl)
+    # send sites the buffers of keyed plans came from (SealStat lines)
+    sites = set()
+    for i in range(nsh):
+        tr = os.path.join(d, "t%d.ndjson" % i)
+        if os.path.exists(tr):
+            with open(tr) as fh:
+                for line in fh:
+                    if '"ev":"SealStat"' in line:
+                        sites.update(json.loads(line)["names"])
+    res.cov.setdefault("_sites", set()).update(sites)
     res.cov["traces_validated_against_impl"] += count
     res.cov["sim"] = {k: {"judged": v[0], "of": v[1]} for k, v in sorted(stat2.items())}
     with open(plans) as fh:
